@@ -23,6 +23,10 @@ CS = "hta.common.trace_call_stack"
 CG = "hta.common.trace_call_graph"
 
 
+def _ob_absent(chk, *a, **k):
+    return chk.ob(*a, absent_is_unknown=True, **k)
+
+
 def run(db, chk) -> None:
     from ..specs.discipline import check_shared_trace_untouched
     check_shared_trace_untouched(db, chk, "C16.R-shared-trace")
@@ -150,11 +154,11 @@ def _roots_and_patterns(db, chk, m):
     chk.ob("C16.R2-pattern", "pattern = (the root's name,) followed by the names of those kernels", okp if not T.has_opaque(pat) else None, where, found=T.show(pat)[:200], accepted="tuple([name] + cuda_kernels['name'].tolist())")
     cnt = cnt_ev
     okcnt = len(cnt) == 1 and cnt[0]["key"] == pat and cnt[0]["value"] == T.C(1)
-    chk.ob("C16.R2-pattern", "each instance adds 1 to its pattern's count", okcnt, where, found=[(T.show(e["value"])[:40]) for e in cnt], accepted="pattern_counts[pattern] += 1")
+    _ob_absent(chk, "C16.R2-pattern", "each instance adds 1 to its pattern's count", okcnt, where, found=[(T.show(e["value"])[:40]) for e in cnt], accepted="pattern_counts[pattern] += 1")
     dur = [e for e in r.events if e["kind"] == "list-store" and e.get("module") == m.name]
     vals = {T.show(e["key"]): e["value"] for e in dur}
     okd = vals.get("0") == ("at", ("row",), T.col(TR, "kernel_dur_sum")) and vals.get("1") == ("at", ("row",), T.col(TR, "dur")) and len(dur) == 2
-    chk.ob("C16.R2-pattern", "durations: [0] += the root's kernel_dur_sum (GPU), [1] += the root's dur (CPU)", okd, where, found={k: T.show(v)[:60] for k, v in vals.items()},
+    _ob_absent(chk, "C16.R2-pattern", "durations: [0] += the root's kernel_dur_sum (GPU), [1] += the root's dur (CPU)", okd, where, found={k: T.show(v)[:60] for k, v in vals.items()},
            accepted={"0": "kernel_dur_sum of the root", "1": "dur of the root"}, why="the loop unpacks (index, name, dur, kernel_dur_sum) positionally from the projected columns")
     proj = rn and [e for e in r.events if e["kind"] == "project" and e.get("cols") == ["index", "name", "dur", "kernel_dur_sum"]]
     # (only relevant when the loop unpacks rows of a projected frame positionally; a zip over explicitly named columns binds by name)
